@@ -295,4 +295,17 @@ theorem changedState_store {s : State} (hwf : WFS s) {c : Nat} {p : Peer} (hp : 
   rw [image_change_element _ _ _ { e with value := some v } hpath]
   rfl
 
+/-! ## close -/
+
+theorem findPeer_gone_of_image {ps ps0 : List Peer} {c : Nat}
+    (h : image ps = (image ps0).filter (·.1 != c)) : findPeer ps c = none := by
+  rw [findPeer_none_iff, ← image_conns, h]
+  intro hm
+  obtain ⟨⟨o, l⟩, hol, rfl⟩ := List.mem_map.1 hm
+  have := (List.mem_filter.1 hol).2
+  simp at this
+
+theorem findPeer_closePeer {x : Ctx} {c : Nat} (hwf : WFS x.st) : findPeer (closePeer x c).st.peers c = none :=
+  findPeer_gone_of_image (closePeer_spec hwf).2
+
 end Cjet.Daemon.C04
